@@ -70,6 +70,7 @@ type Sched struct {
 	Visited  map[string]bool
 	Monitor  func() string // invariant evaluated after every step
 	MaxSteps int
+	Stop     func() bool // optional: end the exploration early (time budget)
 	abort    bool
 	// HB
 	lastWrite map[uintptr]acc
@@ -294,8 +295,10 @@ func SyncOp(addr uintptr) {
 			}
 		}
 	}
-	t.vc[t.id]++
+	// release: publish the clock as it is *before* this thread's later accesses; those get a
+	// larger own-component, so an access performed after a release is not covered by it
 	s.syncVC[addr] = append([]int(nil), t.vc...)
+	t.vc[t.id]++
 }
 
 // Access: plain access to shared location addr.
@@ -321,6 +324,28 @@ func Access(addr uintptr, write bool) {
 	}
 }
 
+var fieldLocs = map[string]uintptr{}
+
+// FieldAccess is the hook the access instrumenter (tools/instr-access) inserts
+// before statements that read or write a mutable receiver field. The location
+// is the field name: every access to lock-protected state must be ordered by
+// happens-before with every conflicting one, whichever element it touches.
+func FieldAccess(field string, write bool) {
+	if S == nil {
+		return
+	}
+	loc, ok := fieldLocs[field]
+	if !ok {
+		loc = uintptr(0xf1e1d000 + len(fieldLocs)*8)
+		fieldLocs[field] = loc
+	}
+	before := S.Race
+	Access(loc, write)
+	if S.Race != "" && before == "" {
+		S.Race += " (field " + field + ")"
+	}
+}
+
 // RelaxedRead records a plain load of a synchronisation word (no HB edge, no race report).
 func RelaxedRead(addr uintptr) {}
 
@@ -339,6 +364,7 @@ type Violation struct {
 }
 
 type Stats struct {
+	Stopped                                  bool // the Stop callback ended the exploration early
 	Executions, Pruned, Deadlocks, MaxPoints int
 	Violations                               []Violation
 	Steps                                    int
@@ -359,7 +385,11 @@ func preemptionsBefore(pts []Point, i int) int {
 func Explore(mk func() []func(), bound int, s *Sched, check func(x *Exec) string, st *Stats) {
 	var rec func(prefix []int)
 	rec = func(prefix []int) {
-		if len(st.Violations) > 0 {
+		if len(st.Violations) > 0 || st.Stopped {
+			return
+		}
+		if s.Stop != nil && s.Stop() {
+			st.Stopped = true
 			return
 		}
 		x := s.run(mk(), prefix)
